@@ -34,10 +34,15 @@ class Chooser:
         self.prefix = []
         self.trace = []
         self.rand = None
+        self.policy = None
 
     def choose(self, n):
         if n <= 1:
             return 0
+        if self.policy is not None:
+            v = min(n - 1, self.policy(n))
+            self.trace.append((v, n))
+            return v
         if self.rand is not None:
             v = self.rand.randrange(n)
             self.trace.append((v, n))
